@@ -5,7 +5,7 @@ THEOREMS = ["Goag.Dir.history_last_wins", "Goag.Dir.step_owned_depends_only_on_i
             "Goag.Dir.step_foreign_untouched", "Goag.Dir.run_foreign_untouched", "Goag.Dir.rerun_idempotent"]
 TRUSTED = [
     "Lean 4.33.0 kernel; axioms propext, Classical.choice, Quot.sound only (audited by #print axioms)",
-    "hand-written model Goag.Dir.stepDir of the file logic in goag.Generate (write/remove per owned file, O_TRUNC rewrite): tied EXHAUSTIVELY on single steps (all 2^5 stale-presence patterns x foreign file x 32 invocations) against the real generator on every run, plus all 1056 histories of length <= 2, sampled histories of length 3 and random longer ones; the single-run references are generated in a fresh process each",
+    "hand-written model Goag.Dir.stepDir of the file logic in goag.Generate (write/remove per owned file, O_TRUNC rewrite): tied EXHAUSTIVELY on single steps (all 2^5 stale-presence patterns x foreign file x 36 invocations) against the real generator on every run, plus all 1332 histories of length <= 2, sampled histories of length 3 and random longer ones; the single-run references are generated in a fresh process each",
     "sha256 equality with a fresh-directory generation as the meaning of 'what a single run produces'",
     "the filesystem (os.Remove, O_TRUNC) behaves as documented; runs that return an error are outside the statement",
 ]
@@ -64,7 +64,7 @@ def check(ctx):
     cov.update({
         "trusted_base": TRUSTED,
         "evaluations": n, "distinct_nontrivial": n - kinds.get("history-1", 0),
-        "rule": "single steps: all 32 stale-presence patterns x user file present/absent x 32 invocations ({spec with components / without components / without operations} x {donotedit} x {client} x {api handler}, plus two 24-operation specs that differ in one digit near the end of every generated file (each file > 32 KiB, same length) x {client} x {api handler}) (2048, exhaustive); histories: all 1056 sequences of length <= 2 from an empty directory, 1200 (quick) / 12000 (thorough) sampled sequences of length 3, run in ONE process while every single-run reference comes from a fresh process; failed invocations (a package name that is not an identifier) before successful ones; spec files written once and dated one hour back; 60 (quick) / 600 (thorough) random histories of length 4-12 from random initial states; non-trivial = more than one invocation or a non-empty initial directory",
+        "rule": "single steps: all 32 stale-presence patterns x user file present/absent x 36 invocations ({spec with components / without components / without operations} x {donotedit} x {client} x {api handler}, plus two 24-operation specs that differ in one digit near the end of every generated file (each file > 32 KiB, same length) and a spec whose components section holds a security scheme and a shared parameter only, x {client} x {api handler}) (2304, exhaustive); histories: all 1332 sequences of length <= 2 from an empty directory, 1200 (quick) / 12000 (thorough) sampled sequences of length 3, run in ONE process while every single-run reference comes from a fresh process; failed invocations (a package name that is not an identifier) before successful ones; spec files written once and dated one hour back; 60 (quick) / 600 (thorough) random histories of length 4-12 from random initial states; non-trivial = more than one invocation or a non-empty initial directory",
         "samples": samples, "agree_with_model": agree, "input_kinds": kinds, "harness_stats": meta.get("stats", {}),
         "exhaustive": True,
         "explanation": "single-step space enumerated completely; theorem history_last_wins lifts the validated step to histories of any length",
